@@ -141,20 +141,20 @@ fn leaves(quick: bool) -> Vec<Expr> {
     v
 }
 
-fn diff(c: &BooleanArray, i: &BooleanArray) -> Option<(usize, String)> {
+fn diff(c: &BooleanArray, i: &BooleanArray) -> Vec<(usize, String)> {
     if c.len() != i.len() {
-        return Some((0, format!("length {} vs {}", c.len(), i.len())));
+        return vec![(0, format!("length {} vs {}", c.len(), i.len()))];
     }
+    let mut out = Vec::new();
     for r in 0..c.len() {
         let (cv, iv) = (c.is_valid(r), i.is_valid(r));
         if cv != iv {
-            return Some((r, format!("validity: compiled {} interpreted {}", cv, iv)));
-        }
-        if cv && c.value(r) != i.value(r) {
-            return Some((r, format!("value: compiled {} interpreted {}", c.value(r), i.value(r))));
+            out.push((r, format!("validity: compiled {} interpreted {}", cv, iv)));
+        } else if cv && c.value(r) != i.value(r) {
+            out.push((r, format!("value: compiled {} interpreted {}", c.value(r), i.value(r))));
         }
     }
-    None
+    out
 }
 
 fn row_json(b: &RecordBatch, r: usize) -> serde_json::Value {
@@ -165,6 +165,27 @@ fn row_json(b: &RecordBatch, r: usize) -> serde_json::Value {
         m.insert(f.name().clone(), json!(v));
     }
     serde_json::Value::Object(m)
+}
+
+fn arithmetic_nan_at(e: &Expr, row: &RecordBatch) -> bool {
+    match e {
+        Expr::BinaryExpr { left, op, right } => {
+            if matches!(op, BinaryOp::Add | BinaryOp::Subtract | BinaryOp::Multiply | BinaryOp::Divide) {
+                if let Ok(a) = evaluate_expr(row, e) {
+                    if let Some(f) = a.as_any().downcast_ref::<Float64Array>() {
+                        if f.len() == 1 && f.is_valid(0) && f.value(0).is_nan() {
+                            return true;
+                        }
+                    }
+                }
+            }
+            arithmetic_nan_at(left, row) || arithmetic_nan_at(right, row)
+        }
+        Expr::UnaryExpr { expr, .. } => arithmetic_nan_at(expr, row),
+        Expr::Between { expr, low, high, .. } => arithmetic_nan_at(expr, row) || arithmetic_nan_at(low, row) || arithmetic_nan_at(high, row),
+        Expr::Cast { expr, .. } => arithmetic_nan_at(expr, row),
+        _ => false,
+    }
 }
 
 fn check(e: &Expr, batches: &[(String, RecordBatch)], o: &mut Out) {
@@ -191,7 +212,25 @@ fn check(e: &Expr, batches: &[(String, RecordBatch)], o: &mut Out) {
             o.count("compiled_declines_batch", 1);
             continue;
         };
-        match diff(&comp, &interp) {
+        let diffs = diff(&comp, &interp);
+        // every differing row is classified on its own: the listed finding covers only rows where some ARITHMETIC sub-expression evaluates to
+        // NaN (the sign bit of a NaN produced by an IEEE operation depends on operand order and constant folding, and totalOrder tells -NaN
+        // from +NaN); NaNs read from the data are identical on both sides. Any other differing row is a violation.
+        let mut real: Option<(usize, String)> = None;
+        let mut known_row: Option<(usize, String)> = None;
+        for (r, why) in diffs.iter() {
+            if comp.len() == interp.len() && arithmetic_nan_at(e, &b.slice(*r, 1)) {
+                if known_row.is_none() {
+                    known_row = Some((*r, why.clone()));
+                }
+            } else if real.is_none() {
+                real = Some((*r, why.clone()));
+            }
+        }
+        if let Some((r, why)) = known_row {
+            o.known("nan_sign_of_computed_arithmetic_differs", json!({"expr": format!("{e}"), "batch": name, "row": r, "row_values": row_json(b, r), "why": why}));
+        }
+        match real {
             None => {
                 let t = (0..comp.len()).filter(|&r| comp.is_valid(r) && comp.value(r)).count();
                 let nn = comp.null_count();
@@ -203,10 +242,6 @@ fn check(e: &Expr, batches: &[(String, RecordBatch)], o: &mut Out) {
                 }
             }
             Some((r, why)) => {
-                let f = b.column(0).as_any().downcast_ref::<Float64Array>().unwrap();
-                let g = b.column(1).as_any().downcast_ref::<Float64Array>().unwrap();
-                let special = |a: &Float64Array| a.is_valid(r) && (a.value(r).is_nan() || (a.value(r) == 0.0 && a.value(r).is_sign_negative()));
-                let _ = (special(f), special(g));
                 o.violation(json!({"property": "C06", "kind": "native", "expr": format!("{e}"), "expr_debug": format!("{e:?}"), "batch": name, "row": r, "row_values": row_json(b, r), "why": why}));
             }
         }
